@@ -368,6 +368,18 @@ class Sec(Driver):
                 return BAD("wrong-key", repr((pair, comp, blob.hex())), repr(facts), n=calls, clause="sec-wrong-point")
             if low[True][0] != "pair":
                 return BAD("reject-vs-accept", "strict sec_to_public_pair accepts the canonical encoding", repr(low[True]), n=calls, clause="sec-canonical-refused")
+            # the same blob handed over in a buffer the caller reuses afterwards (a bytearray): the key must not follow the buffer
+            buf = bytearray(blob)
+            ok, kb = _try(lambda: nw.keys.public(buf))
+            if ok:
+                for i in range(len(buf)):
+                    buf[i] ^= 0xff
+                ok2, f2 = _try(lambda: (tuple(kb.public_pair()), kb.is_compressed(), bytes(kb.sec()), kb.hash160(), kb.address()))
+                calls += 2
+                want2 = (pair, comp, blob, hash160(blob), k.address())
+                if not ok2 or f2 != want2:
+                    return BAD("argument-aliased", "key built from a bytearray keeps %r after the caller overwrote its buffer" % (want2[2].hex(),),
+                               repr(f2), n=calls, clause="sec-argument-aliased")
             return OK("accepted:%s" % ("compressed" if comp else "uncompressed"), n=calls)
         if kind == "key":
             canon_pt = ec.canon(facts[0], P)
@@ -384,6 +396,18 @@ class Sec(Driver):
             # uncompressed point is not: that is left to the key level, see ASSUMPTIONS)
             return BAD("strict-decoder-accepts", "sec_to_public_pair(strict=True) refuses (%s)" % reason, "returned %r" % (low[True][1],), n=calls,
                        clause="sec-strict-decoder:" + reason, reason=reason)
+        lax_reason = None
+        if len(blob) not in (33, 65):
+            lax_reason = "length"
+        elif len(blob) == 33 and blob[0] in (2, 3) and int.from_bytes(blob[1:], "big") >= P:
+            lax_reason = "x>=p"
+        elif len(blob) == 65 and blob[0] in (4, 6, 7) and (int.from_bytes(blob[1:33], "big") >= P or int.from_bytes(blob[33:], "big") >= P):
+            lax_reason = "coord>=p"
+        if lax_reason and low[False][0] == "pair":
+            reason = lax_reason
+            # the lax decoder (hybrid prefixes allowed, as in consensus) must still refuse wrong lengths and unreduced coordinates
+            return BAD("lax-decoder-accepts", "sec_to_public_pair(strict=False) refuses (%s)" % reason, "returned %r" % (low[False][1],), n=calls,
+                       clause="sec-lax-decoder:" + reason, reason=reason)
         L = len(blob)
         shape = "len33" if L == 33 else "len65" if L == 65 else "other-length"
         return OK("refused:%s:%s:%s%s" % (reason, shape, facts, "" if low[False][0] == "exc" else ":lax-accepts"), n=calls)
